@@ -20,6 +20,20 @@ scripted base draws (`scripted_rng`), from outside:
   parameters, all radec/degs conventions and adaptive variants at adapted scales
   (`all_cases`), and to `proposed_position` along runs of real chains fed with
   real random base draws (`random_runs`).
+* long rejection streaks (`gen_streaks`): every family with a rejection loop (bounded normal,
+  bounded discrete, the zero-draw loop of the unbounded discrete family, angular, bounded
+  eigenvector, and all their adaptive variants) is fed, for each parameter position, a stream
+  that holds a streak of 99..65536 (thorough: up to 250001) draws whose image is outside the
+  domain, then one draw that lands.  The loops of the real code are unbounded ("first conforming
+  draw wins"), so the outcome must be the image of the landing draw after exactly streak+1
+  draws: judged directly (`judge_streak`, a walk over the generator log) and by the Lean model
+  (whose loops are unbounded too).  A loop that is capped and gives up is caught here.
+* configuration by NAME (`gen_named`, field `cfg` of a spec): dict-like configuration
+  (`boundaries`, `successive`, `prior_widths`, means/stds of the births) is handed to the real
+  constructors/setters in another key order than `parameters`, with extra keys, and again after
+  construction.  Expected: exactly the result of the same configuration laid out in parameter
+  order (same scripted draws -> same output and draw count: a metamorphic check on the real
+  code, `run_suite`), and the ordinary oracle and model comparison apply (bounds by name).
 
 Keys of the failing inputs (one per defect, stable across runs):
   bounded-eigenvector-corner-stall       start at a corner/edge: no proposal within the draw budget
@@ -32,8 +46,16 @@ Keys of the failing inputs (one per defect, stable across runs):
   log_normal_birth-zero-density          sigma/mu < 1.5e-8: std_log rounds to 0, own logpdf NaN
   <group>-out-of-bounds / -nan / -non-integer / -proposes-current / -no-refusal-outside /
   -refuses-inside / -raises, ang-out-of-range, solid-angle-out-of-range, <birth>-zero-density
+  <group>-rejection-loop                 a rejection loop did not return the first conforming draw of
+                                         its stream (gave up, raised, or consumed another number of draws)
+  <group>-config-not-by-name             a name-keyed configuration dict in another key order / with extra
+                                         keys / set again changes the outcome of the same scripted call
 """
+import concurrent.futures
 import contextlib
+import gc
+import multiprocessing
+import os
 import itertools
 import json
 import math
@@ -46,9 +68,10 @@ import common
 from common import frac, csv
 import families as F
 import forcing
-from scripted_rng import (Script, scripted, real_tail, ScriptExhausted, DrawBudgetExceeded)
+from scripted_rng import (Script, scripted, real_tail, ScriptExhausted, DrawBudgetExceeded, ScriptedGenerator, Request)
 
 from epsie import proposals as P
+from epsie.proposals import base as _pbase
 from epsie.chain import Chain
 from epsie.proposals import solid_angle as _sa_mod
 from epsie.proposals import birth as B
@@ -176,6 +199,8 @@ def build(spec):
     kappa, radec, degs, adapt=None|dict(pattern, steps, window, seed)).  Returns the real object."""
     fam = spec['family']
     g = GROUP_OF[fam]
+    if spec.get('cfg') is not None:
+        return build_named(spec)
     if g == 'birth':
         names = param_names(spec['n'])
         if fam == 'uniform_birth':
@@ -219,6 +244,162 @@ def build(spec):
     doms = {p: tuple(b) for p, b in zip(names, spec['bounds'])} if spec.get('bounds') else {p: None for p in names}
     prop = F.make(fam, names, doms, rng, window=adapt['window'], successive=succ if succ is not None else 'off')
     run_adaptation(prop, spec)
+    return prop
+
+
+# ---- configuration dicts keyed by parameter name, laid out in ways that must not matter
+#
+# spec['cfg'] = dict(order='given'|'reversed'|'shuffled', extra=bool, reset=bool, seed=int):
+#   order   key order of every dict handed to the real code, relative to `parameters`
+#   extra   the dicts also hold two keys that are no parameters of the proposal (one of them first),
+#           with values far from every real one (as when one dict is shared by several proposals).
+#           Tried on the unchanged code: every constructor and setter used here accepts them
+#           (they index the dict by parameter name).  The only exclusion: an extra entry of
+#           `successive` must be a bool (any other value is rejected by the setter: "all dictionary
+#           values must be bools"), so the extra entries of `successive` are bools.
+#   reset   the object is first constructed with a decoy configuration (other bounds, inverted
+#           `successive`, other means/stds; in parameter order, no extra keys) and the wanted one is
+#           then set through the public setters (`.boundaries = `, `.successive = `, `setup_mu_std`).
+#           BoundedDiscrete floors/ceils its bounds in the constructor only, so for that family
+#           `reset` is used with integer bounds only.
+# A spec with cfg = CFG_BASE is the reference of the metamorphic comparison in `run_suite`.
+
+EXTRA_KEYS = ('a_not_mine', 'zz_not_mine')         # sort before / after x0, x1, x2
+CFG_BASE = {'order': 'given', 'extra': False, 'reset': False}
+CFG_LAYOUTS = [
+    {'order': 'reversed', 'extra': False, 'reset': False},
+    {'order': 'shuffled', 'extra': False, 'reset': False},
+    {'order': 'given', 'extra': True, 'reset': False},
+    {'order': 'reversed', 'extra': True, 'reset': False},
+    {'order': 'shuffled', 'extra': True, 'reset': True},
+    {'order': 'reversed', 'extra': False, 'reset': True},
+    {'order': 'given', 'extra': False, 'reset': True},
+]
+
+
+def cfg_is_variant(cfg):
+    return cfg is not None and (cfg.get('order', 'given') != 'given' or bool(cfg.get('extra')))
+
+
+def cfg_base_of(cfg):
+    """The reference layout of a variant: parameter order, no extra keys, same construction path."""
+    d = dict(CFG_BASE)
+    d['reset'] = bool(cfg.get('reset'))
+    if 'seed' in cfg:
+        d['seed'] = cfg['seed']
+    return d
+
+
+def cfg_label(cfg):
+    return '%s%s%s' % (cfg.get('order', 'given'), '+extra' if cfg.get('extra') else '', '+reset' if cfg.get('reset') else '')
+
+
+def laid_out(names, values, cfg, extras, salt=0):
+    """dict name -> value with the key order (and the extra keys) `cfg` asks for."""
+    items = list(zip(names, values))
+    order = cfg.get('order', 'given')
+    if order == 'reversed':
+        items.reverse()
+    elif order == 'shuffled' and len(items) > 1:
+        r = random.Random(int(cfg.get('seed', 0)) * 31 + salt)
+        first = list(items)
+        while items == first:
+            r.shuffle(items)
+    elif order not in ('given', 'reversed', 'shuffled'):
+        raise ValueError('unknown dict order %r' % (order,))
+    if cfg.get('extra'):
+        items = [(EXTRA_KEYS[0], extras[0])] + items[:1] + [(EXTRA_KEYS[1], extras[1])] + items[1:]
+    return dict(items)
+
+
+def build_named(spec):
+    """`build` for a spec with a `cfg` field: every dict-like argument is laid out as cfg asks."""
+    fam = spec['family']
+    g = GROUP_OF[fam]
+    cfg = spec['cfg']
+    names = param_names(spec['n'])
+    n = len(names)
+    ordered = lambda vals: dict(zip(names, vals))             # noqa: E731  (the decoys: parameter order)
+    if g == 'birth':
+        if fam == 'uniform_birth':
+            want = laid_out(names, [tuple(b) for b in spec['bounds']], cfg, [(1e3, 2e3), (-2e3, -1e3)])
+            if not cfg.get('reset'):
+                return B.UniformBirth(names, want)
+            prop = B.UniformBirth(names, ordered([(b[0] - 10. - i, b[1] + 20. + i) for i, b in enumerate(spec['bounds'])]))
+            prop.boundaries = want
+            return prop
+        cls = B.NormalBirth if fam == 'normal_birth' else B.LogNormalBirth
+        mean = laid_out(names, spec['mean'], cfg, [1e3, 2e3], salt=1)
+        std = laid_out(names, spec['std'], cfg, [7e-3, 3e3], salt=2)
+        if not cfg.get('reset'):
+            return cls(names, mean, std)
+        prop = cls(names, ordered([abs(m) + 1. + i for i, m in enumerate(spec['mean'])]),
+                   ordered([2. * s + i for i, s in enumerate(spec['std'])]))
+        prop.setup_mu_std(mean, std)
+        return prop
+    if g not in ('bn', 'bd', 'nd', 'be'):
+        raise ValueError('family %s has no name-keyed configuration' % fam)
+    bounded = g in ('bn', 'bd', 'be')
+    integer = g in ('bd', 'nd')
+    want_b = want_s = decoy_b = decoy_s = None
+    if bounded:
+        ex = [(1000, 2000), (-2000, -1000)] if g == 'bd' else [(1e3, 2e3), (-2e3, -1e3)]
+        want_b = laid_out(names, [tuple(b) for b in spec['bounds']], cfg, ex)
+        if g == 'bd':
+            decoy_b = ordered([(int(math.floor(b[0])) - 10 - i, int(math.ceil(b[1])) + 20 + i)
+                               for i, b in enumerate(spec['bounds'])])
+        else:
+            decoy_b = ordered([(b[0] - 10. - i, b[1] + 20. + i) for i, b in enumerate(spec['bounds'])])
+    if integer and spec.get('successive') is not None:
+        sv = [bool(v) for v in spec['successive']]
+        want_s = laid_out(names, sv, cfg, [not sv[0], sv[0]], salt=3)
+        decoy_s = ordered([not v for v in sv])
+    reset = bool(cfg.get('reset'))
+    b0 = decoy_b if reset else want_b
+    s0 = decoy_s if reset else want_s
+    adapt = spec.get('adapt')
+    if adapt is None:
+        if fam == 'bounded_normal':
+            prop = P.BoundedNormal(names, b0, cov=[s * s for s in spec['std']])
+        elif fam == 'bounded_discrete':
+            prop = P.BoundedDiscrete(names, b0, cov=[s * s for s in spec['std']], successive=s0)
+        elif fam == 'discrete':
+            prop = P.NormalDiscrete(names, cov=[s * s for s in spec['std']], successive=s0)
+        elif fam == 'bounded_eigenvector':
+            prop = P.BoundedEigenvector(names, b0, cov=numpy.array(spec['cov'], dtype=float))
+        else:
+            raise ValueError('family %s needs an adaptation spec' % fam)
+        if fam != 'bounded_eigenvector':
+            prop._std = numpy.array(spec['std'], dtype=float)      # exactly the scale asked for
+    else:
+        rng = random.Random(adapt['seed'])
+        cls, kind = F.FAMILIES[fam][0], F.FAMILIES[fam][1]
+        T = adapt['window']
+        cov = [round(rng.uniform(0.6, 4.0), 2) if integer else round(rng.uniform(0.05, 0.6), 3) for _ in names]
+        if fam in ('adaptive_bounded_normal', 'at_adaptive_bounded_normal'):
+            prop = cls(names, b0, T)
+        elif fam == 'ss_adaptive_bounded_normal':
+            prop = cls(names, b0, cov=cov)
+        elif fam == 'ss_adaptive_bounded_discrete':
+            prop = cls(names, b0, cov=cov, successive=s0)
+        elif fam == 'adaptive_bounded_discrete':
+            prop = cls(names, b0, T, successive=s0)
+        elif fam == 'ss_adaptive_discrete':
+            prop = cls(names, cov=cov, successive=s0)
+        elif fam == 'adaptive_discrete':
+            widths = laid_out(names, [round(rng.uniform(4, 9), 3) + i for i in range(n)], cfg, [1e3, 1e-3], salt=4)
+            prop = cls(names, widths, T, successive=s0)
+        elif fam == 'adaptive_bounded_eigenvector':
+            prop = cls(names, b0, T, cov0=F._spd(n, rng))
+        else:
+            raise ValueError('no name-keyed construction for family %s' % fam)
+    if reset:
+        if bounded:
+            prop.boundaries = want_b
+        if want_s is not None:
+            prop.successive = want_s
+    if adapt is not None:
+        run_adaptation(prop, spec)
     return prop
 
 
@@ -304,24 +485,184 @@ def landing_tail(group, prop, fromx, script_ref):
     return tail
 
 
+# ---- long rejection streaks
+
+class _StreakGenerator(ScriptedGenerator):
+    """The scripted stand-in with a short path for the one request the rejection loops make
+    (`normal(loc, scale)` with scalar arguments): same base draw, same formula `loc + scale*z`,
+    same log entry as `ScriptedGenerator.normal`, without the array handling."""
+
+    def normal(self, loc=0.0, scale=1.0, size=None):
+        if size is not None or not isinstance(loc, (int, float)) or not isinstance(scale, (int, float)):
+            return ScriptedGenerator.normal(self, loc, scale, size)
+        if scale < 0:
+            raise ValueError('scale < 0')
+        s = self._s
+        args = {'loc': loc, 'scale': scale, 'size': None}
+        s.pending = ('normal', args)
+        z = s.pop('z')
+        out = float(loc) + float(scale) * z
+        s.log.append(Request('normal', args, [('z', z)], out, self._gid))
+        return out
+
+
+@contextlib.contextmanager
+def scripted_streak(script):
+    """`scripted_rng.scripted` for one script, handing out one `_StreakGenerator`; the cyclic
+    garbage collector is paused while the log grows by tens of thousands of entries."""
+    saved = _pbase.BaseRandom.__dict__['random_generator']
+    gens = {}
+
+    def random_generator(self_):
+        gid = id(self_.bit_generator)
+        g = gens.get(gid)
+        if g is None:
+            g = gens[gid] = _StreakGenerator(script, gid)
+        return g
+
+    was = gc.isenabled()
+    gc.disable()
+    _pbase.BaseRandom.random_generator = property(random_generator)
+    try:
+        yield script
+    finally:
+        _pbase.BaseRandom.random_generator = saved
+        if was:
+            gc.enable()
+
+
+def py_floorceil(d):
+    """`_floorceil` of the documentation: ceiling of positive values, floor of negative ones."""
+    return math.ceil(d) if d > 0 else (math.floor(d) if d < 0 else 0)
+
+
+def py_step(successive, d):
+    """The integer step the discrete proposals document for the real-valued draw d."""
+    return int(round(d, 0)) if successive else int(py_floorceil(d))
+
+
+def n_loops(group, prop):
+    return 1 if group == 'be' else len(prop.parameters)
+
+
+def _verified(cands, ok):
+    out = []
+    for c in cands:
+        try:
+            if math.isfinite(c) and ok(c):
+                out.append(c)
+        except (OverflowError, ValueError):
+            pass
+    return out
+
+
+def streak_tail(group, spec, prop, fromx, lens, script_ref):
+    """Responsive base draws for the rejection loops: the loop of parameter number i (in
+    `parameters` order; the bounded eigenvector jump has one loop) is served `lens[i]` standard
+    normals whose image under the request being served (`script.pending`: loc, scale) is outside
+    the declared domain -- far above, far below, next to either bound, a zero step -- and then one
+    that lands well inside.  Each value is checked here against the declared domain with numpy's
+    own formula `loc + scale*z`; what the code makes of them is judged in `judge_streak`."""
+    names = list(prop.parameters)
+    nl = n_loops(group, prop)
+    st = {'i': 0, 'k': 0, 'cyc': None, 'land': None}
+    fallback = landing_tail(group, prop, fromx, script_ref)
+    bounds = declared_bounds(spec, prop) if group in ('bn', 'bd', 'be') else None
+
+    def prepare(i, loc, scale):
+        """(rejected standard normals to cycle through, the landing one) for loop i."""
+        img = lambda z: float(loc) + float(scale) * z          # noqa: E731
+        if group == 'bn':
+            lo, hi = bounds[names[i]]
+            w = (hi - lo) or 1.0
+            outside = lambda z: not (lo <= img(z) <= hi)        # noqa: E731
+            zs = [(t - loc) / scale for t in (hi + w, lo - w, hi + 0.013 * w, lo - 3.5 * w, hi + 1e6 * w,
+                                              lo - 0.5 * w, hi + 7.25 * w, lo - 1e3 * w)]
+            for t, d in ((hi, math.inf), (lo, -math.inf)):      # the nearest images beyond either bound
+                z0 = (t - loc) / scale
+                near = [z0]
+                for _ in range(3):
+                    near.append(math.nextafter(near[-1], d if scale > 0 else -d))
+                near.append(z0 + (abs(z0) + 1.0) * 1e-12 * (1 if d > 0 else -1))
+                zs += _verified(near, outside)[:1]
+            rej = _verified(zs, outside)
+            land = _verified([(lo + 0.618 * (hi - lo) - loc) / scale, (0.5 * (lo + hi) - loc) / scale, 0.0], lambda z: lo <= img(z) <= hi)
+        elif group == 'bd':
+            p = names[i]
+            lo, hi = bounds[p]
+            x0 = int(fromx[p])
+            sc = bool(prop.successive[p])
+            good = lambda z: (lo <= x0 + py_step(sc, img(z)) <= hi) and (sc or py_step(sc, img(z)) != 0)   # noqa: E731
+            ds = [hi - x0 + 1.25, -(x0 - lo) - 1.25, hi - x0 + 2.25, -(x0 - lo) - 6.25, hi - x0 + 1000.25,
+                  -(x0 - lo) - 3.25]
+            if not sc:
+                ds += [0.0, -0.0]
+            rej = _verified([d / scale for d in ds], lambda z: not good(z))
+            land = _verified([d / scale for d in (0.75, -0.75, 0.25)], good)
+        elif group == 'nd':
+            sc = bool(prop.successive[names[i]])
+            rej = [] if sc else [0.0, -0.0]
+            land = [0.75 / scale]
+        elif group == 'ang':
+            h = 1.0
+            rej = _verified([t / scale for t in (1.5, -1.5, 3.0, -7.0, math.nextafter(1.0, 2.0), -math.nextafter(1.0, 2.0),
+                                                 1e6, -1.0 - 1e-9)], lambda z: abs(img(z)) > h)
+            land = _verified([0.25 / scale, 0.0], lambda z: abs(img(z)) <= h)
+        else:                      # 'be': any displacement longer than the diagonal leaves the box
+            diag = math.sqrt(sum((bounds[p][1] - bounds[p][0]) ** 2 for p in names))
+            room = min(min(float(fromx[p]) - bounds[p][0], bounds[p][1] - float(fromx[p])) for p in names)
+            rej = [t * diag / scale for t in (2.0, -2.0, 3.5, -5.0, 1e3, -1e6, 2.0 + 1e-9, -17.0)]
+            land = [0.5 * max(room, 0.0) / scale, 0.0]
+        return rej, (land[0] if land else 0.0)
+
+    def tail(kind):
+        if kind == 'u':
+            return 0.5
+        i = st['i']
+        if i >= nl:
+            return fallback(kind)
+        if st['cyc'] is None:
+            sc = script_ref[0]
+            meth, args = sc.pending if sc.pending else ('normal', {'loc': 0.0, 'scale': 1.0})
+            scale = float(numpy.asarray(args.get('scale', 1.0)).ravel()[0])
+            if not (math.isfinite(scale) and scale > 0):
+                scale = 1.0
+            loc = float(numpy.asarray(args.get('loc', 0.0)).ravel()[0])
+            st['cyc'], st['land'] = prepare(i, loc, scale)
+        k = st['k']
+        if k < lens[i] and st['cyc']:
+            st['k'] = k + 1
+            return st['cyc'][k % len(st['cyc'])]
+        z = st['land']
+        st['i'], st['k'], st['cyc'] = i + 1, 0, None
+        return z
+    return tail
+
+
 def call_real(spec, prop, fromx, z, u, tail=None, budget=None):
     """Run the real jump()/birth with the scripted generator.  Returns a dict:
     kind ok|refuse|starved|budget|error, out, script, contains log, numpy log."""
     g = GROUP_OF[spec['family']]
     ref = [None]
     tl = None
+    log_contains = True
+    streak = False
     if tail == 'land':
         tl = landing_tail(g, prop, fromx, ref)
     elif isinstance(tail, (list, tuple)) and tail and tail[0] == 'real':
         tl = real_tail(int(tail[1]))
+    elif isinstance(tail, (list, tuple)) and tail and tail[0] == 'streak':
+        tl = streak_tail(g, spec, prop, fromx, [int(v) for v in tail[1]], ref)
+        streak = True
+        log_contains = g == 'be'        # (only the eigenvector request of the model needs the tested points)
     sc = Script(z=z, u=u, tail=tl, budget=budget)
     ref[0] = sc
     res = {'script': sc, 'contains': [], 'np': [], 'out': None, 'exc': None}
     try:
         with contextlib.ExitStack() as st:
-            cl = st.enter_context(ContainsLog())
+            cl = st.enter_context(ContainsLog()) if log_contains else ContainsLog()
             res['contains'] = cl.log
-            st.enter_context(scripted(sc))
+            st.enter_context(scripted_streak(sc) if streak else scripted(sc))
             if g == 'sa':
                 res['np'] = st.enter_context(sa_numpy_log())
             if g == 'birth':
@@ -500,9 +841,11 @@ def judge(spec, prop, fromx, res):
                 zero = any(float(numpy.asarray(r.out).ravel()[0]) == 0.0 for r in res['script'].log
                            if r.method == 'normal')
                 key = 'discrete-zero-draw-proposes-current' if zero else '%s-proposes-current' % g
+                draws = [float(numpy.asarray(r.out).ravel()[0]) for r in res['script'].log[:13]]
+                more = len(res['script'].log) - len(draws)
                 out.append((key, '%s (successive=False) proposed the current integer %s=%r (from %r; '
-                            'underlying normal draws %r)' % (fam, p, v, fromx[p],
-                                                             [float(numpy.asarray(r.out).ravel()[0]) for r in res['script'].log])))
+                            'underlying normal draws %r%s)' % (fam, p, v, fromx[p], draws,
+                                                               ' and %d more' % more if more > 0 else '')))
     elif g == 'ang':
         for p in names:
             v = pt[p]
@@ -533,6 +876,114 @@ def judge(spec, prop, fromx, res):
             out.append(('solid-angle-out-of-range', '%s (kappa=%r, radec=%r, degs=%r) from %r: %s' % (
                 fam, float(prop.kappa), spec['radec'], spec['degs'], fromx, '; '.join(bad))))
     return out
+
+
+def first_conforming(spec, prop, fromx, res):
+    """What an unbounded rejection loop ("the first conforming draw wins") makes of the values the
+    generator stand-in returned, in request order -- computed from the declared domain alone.
+
+    Returns None when this walk cannot decide (a bounded eigenvector candidate inside the tolerance
+    band of a face), otherwise dict(y=[...] | None, used=number of normal draws, streaks=[rejections
+    per loop]); y is None when the logged stream holds no conforming draw for some loop."""
+    g = GROUP_OF[spec['family']]
+    names = list(prop.parameters)
+    outs = _outs(res)
+    pos = 0
+    ys, streaks = [], []
+    if g == 'be':
+        bounds = declared_bounds(spec, prop)
+        if prop._ind is None:
+            return None
+        e = [prop.eigvects[i, prop._ind] for i in range(len(names))]
+        k = 0
+        for dx in outs:
+            cand = [fromx[p] + dx * e[i] for i, p in enumerate(names)]
+            k += 1
+            inside = True
+            clear_out = False
+            for p, v in zip(names, cand):
+                lo, hi = bounds[p]
+                tl, th = 2 * (ATOL + RTOL * abs(lo)), 2 * (ATOL + RTOL * abs(hi))
+                if v < lo - tl or v > hi + th:
+                    clear_out = True
+                if not (lo + tl <= v <= hi - th) and not (v == lo or v == hi):
+                    inside = False
+            if clear_out:
+                continue
+            if not inside:
+                return None
+            return {'y': [float(v) for v in cand], 'used': k, 'streaks': [k - 1]}
+        return {'y': None, 'used': k, 'streaks': [k]}
+    for i, p in enumerate(names):
+        found = None
+        start = pos
+        while pos < len(outs):
+            d = outs[pos]
+            pos += 1
+            if g == 'bn':
+                lo, hi = declared_bounds(spec, prop)[p]
+                if lo <= d <= hi:
+                    found = d
+            elif g == 'bd':
+                lo, hi = declared_bounds(spec, prop)[p]
+                sc = bool(spec['successive'][i]) if spec.get('successive') is not None else False
+                stp = py_step(sc, d)
+                if lo <= int(fromx[p]) + stp <= hi and (sc or stp != 0):
+                    found = int(fromx[p]) + stp
+            elif g == 'nd':
+                sc = bool(spec['successive'][i]) if spec.get('successive') is not None else False
+                if sc or d != 0:
+                    found = int(fromx[p]) + py_step(sc, d)
+            elif g == 'ang':
+                if abs(d) <= 1.0:
+                    found = d
+            if found is not None:
+                break
+        if found is None:
+            return {'y': None, 'used': pos, 'streaks': streaks + [pos - start]}
+        ys.append(found)
+        streaks.append(pos - start - 1)
+    return {'y': ys, 'used': pos, 'streaks': streaks}
+
+
+def judge_streak(spec, prop, fromx, res):
+    """Findings of a rejection-streak case: the call must return the image of the first conforming
+    draw of each loop, having consumed exactly the draws up to it.  (findings, walk)"""
+    fam = spec['family']
+    g = GROUP_OF[fam]
+    if res['kind'] not in ('ok', 'budget', 'error', 'starved'):
+        return [], None
+    try:
+        walk = first_conforming(spec, prop, fromx, res)
+    except Exception:          # noqa: BLE001  (a log this walk cannot read: the other oracles still apply)
+        walk = None
+    if walk is None:
+        return [], None
+    key = '%s-rejection-loop' % g
+    what = '%s.jump(%r) (bounds %r, scales %r)' % (fam, fromx, declared_bounds(spec, prop) if g in ('bn', 'bd', 'be') else None,
+                                                   scale_of(prop))
+    if res['kind'] != 'ok':
+        if walk['y'] is None and res['kind'] in ('budget', 'starved'):
+            return [], walk          # the stream held no conforming draw: nothing to return yet
+        return [(key, '%s was served a stream whose first conforming draws come after rejection streaks of %r; '
+                 'it did not return them (%s%s)' % (what, walk['streaks'], res['kind'],
+                                                   ': ' + res['exc'] if res.get('exc') else ''))], walk
+    used = res['script'].used('z')
+    names = list(prop.parameters)
+    got = [res['out'].get(p) for p in names]
+    if walk['y'] is None:
+        return [(key, '%s returned %r although none of the %d draws it took conforms (rejections per loop: %r)' % (
+            what, got, used, walk['streaks']))], walk
+    bad = used != walk['used']
+    if g != 'ang':        # (the angular image is wrapped: its value is compared by the model)
+        for a, b in zip(got, walk['y']):
+            if a is None or _isnan(a) or a != b:
+                bad = True
+    if bad:
+        return [(key, '%s after rejection streaks of %r returned %r having consumed %d normal draws; the first '
+                 'conforming draws of its stream give %r after %d draws' % (
+                     what, walk['streaks'], got, used, walk['y'], walk['used']))], walk
+    return [], walk
 
 
 # --------------------------------------------------------------------------
@@ -640,13 +1091,41 @@ def protocol(spec, prop, fromx, res):
     return None
 
 
-def run_domain_driver(lines, timeout=1800):
+def _run_domain_driver(lines, timeout=1800):
     p = subprocess.run(['lake', 'env', 'lean', '--run', 'DriverDomain.lean'], cwd=common.LEAN_DIR,
                        input='\n'.join(lines) + '\n', stdout=subprocess.PIPE, stderr=subprocess.PIPE,
                        text=True, timeout=timeout)
     if p.returncode != 0:
         raise RuntimeError('Lean driver DriverDomain failed: ' + p.stderr[-2000:])
     return p.stdout.splitlines()
+
+
+def run_domain_driver(lines, timeout=1800, procs=None):
+    """Answers of the Lean driver, one per request line.  A large batch (the rejection-streak
+    requests carry up to 65537 draws each) is cut into consecutive chunks of about equal size that
+    are served by several driver processes at once; the answers come back in request order."""
+    total = sum(len(ln) for ln in lines)
+    if procs is None:
+        procs = min(6, os.cpu_count() or 1)
+    nchunks = min(procs, max(1, total // 1500000), len(lines))
+    if nchunks < 2:
+        return _run_domain_driver(lines, timeout)
+    chunks, cur, size = [], [], 0
+    for ln in lines:
+        cur.append(ln)
+        size += len(ln)
+        if size >= total / nchunks and len(chunks) < nchunks - 1:
+            chunks.append(cur)
+            cur, size = [], 0
+    if cur:
+        chunks.append(cur)
+    with concurrent.futures.ThreadPoolExecutor(len(chunks)) as ex:
+        outs = list(ex.map(lambda ch: _run_domain_driver(ch, timeout), chunks))
+    for ch, o in zip(chunks, outs):
+        if len(o) != len(ch):       # a driver that skipped a line: keep the answers aligned per chunk
+            o.extend(['<model output ended>'] * (len(ch) - len(o)))
+            del o[len(ch):]
+    return [a for o in outs for a in o]
 
 
 def _parse_answer(line):
@@ -1024,8 +1503,295 @@ def gen_birth(rng, tier, full):
                 yield case(spec, {}, z=[z] * n, tail=None)
 
 
+# ---- long rejection streaks (every family with a rejection loop, every parameter position)
+
+# streak lengths around the caps a bounded loop would typically get (cap-1, cap, cap+1)
+STREAKS_QUICK = [99, 100, 101, 999, 1000, 1001, 4999, 5000, 5001, 10000, 65536]
+STREAKS_QUICK_ADAPTIVE = [100, 1000, 1001, 5000, 10000]            # (+ 65536 at the first position)
+STREAK_CAPS = [10, 16, 20, 25, 32, 50, 64, 100, 128, 200, 250, 256, 500, 512, 1000, 1024, 2000, 2048, 2500, 3000,
+               4096, 5000, 8192, 10000, 16384, 20000, 32768, 50000, 65536, 100000, 131072, 250000]
+STREAK_MODEL_MAX = 1001        # longer streaks go through the Lean model only at the first position of a family
+STREAK_FAMILIES = GROUPS['bn'] + GROUPS['bd'] + GROUPS['nd'] + GROUPS['ang'] + GROUPS['be']
+
+
+def streak_to_model(g, base, pi, L, full):
+    """Which streak cases also go through the Lean driver (every one is judged by the walk over
+    the generator log): a request line carries every draw as an exact fraction (~35 bytes a draw,
+    ~115 for the eigenvector family with its tested points), so the long ones are sent for the
+    base family of a group at its first position only."""
+    if L <= (2501 if full else STREAK_MODEL_MAX):
+        return True
+    if not (base and pi == 0):
+        return False
+    if full:
+        return L <= (10001 if g == 'be' else 20001) or (L == 65536 and g != 'be')
+    return L <= (5001 if g == 'be' else 10000) or (L == 65536 and g in ('bn', 'nd'))
+
+
+def _around(caps):
+    out = []
+    for c in caps:
+        out += [c - 1, c, c + 1]
+    return sorted(set(out))
+
+
+def streak_case(spec, fromx, lens, u=(), model=True):
+    c = case(spec, fromx, z=[], u=u, tail=['streak', [int(v) for v in lens]], budget=sum(lens) + len(lens) + 64)
+    if model:
+        c['model'] = True
+    return c
+
+
+def streak_plan(fam, full, lucky):
+    """[(number of parameters, loop position, streak lengths)] of one family.  The base family of
+    each group gets every length at every position; the adaptive variants (which inherit `_jump`)
+    the lengths around the usual caps up to 10000 at every position and, quick tier, the 65536
+    streak for one variant per group (chosen from the seed).  The bounded eigenvector loop costs
+    ~50 us per draw in the real code (four `numpy.isclose` per tested point), so its 3-parameter
+    and adaptive forms get fewer lengths in the quick tier."""
+    g = GROUP_OF[fam]
+    base = fam == GROUPS[g][0]
+    upto = lambda m: _around([c for c in STREAK_CAPS if c <= m])        # noqa: E731
+    plan = []
+    if g == 'be':
+        if full:
+            plan.append((2, 0, (_around(STREAK_CAPS) if base else upto(10000) + [65536])))
+            if base:
+                plan.append((3, 0, upto(10000) + [65536]))
+        elif base:
+            plan += [(2, 0, STREAKS_QUICK), (3, 0, [100, 1001])]
+        else:
+            plan.append((2, 0, [101, 1000, 5001]))
+        return plan
+    dims = ((1, 2, 3) if g in ('bn', 'bd') else (1, 2)) if (full and base) else (2,)
+    first = True
+    for n in dims:
+        for pos in range(n):
+            if full:
+                lens = _around(STREAK_CAPS) if (base and first) else upto(10000) + ([65536, 100000] if first else [])
+            elif base:
+                lens = STREAKS_QUICK
+            else:
+                lens = STREAKS_QUICK_ADAPTIVE + ([65536] if (first and fam in lucky) else [])
+            first = False
+            plan.append((n, pos, lens))
+    return plan
+
+
+def gen_streaks(rng, tier, full):
+    a_spec = adapt_specs(rng, 'quick')[2]
+    lucky = {rng.choice(GROUPS[g][1:]) for g in ('bn', 'bd', 'nd', 'ang')}
+    for fam in STREAK_FAMILIES:
+        g = GROUP_OF[fam]
+        base = fam == GROUPS[g][0]
+        plan = streak_plan(fam, full, lucky)
+        for pi, (n, pos, lens_here) in enumerate(plan):
+            names = param_names(n)
+            spec = dict(family=fam, n=n)
+            if g == 'bn':
+                boxes = [ADAPT_BOXES[(n + j) % 3] for j in range(n)]
+            elif g == 'bd':
+                boxes = [INT_BOXES[j] for j in range(n)]
+            elif g == 'be':
+                boxes = [(0.0, 1.0), (-2.0, 3.0), (-5.0, -4.5)][:n]
+            else:
+                boxes = None
+            if boxes is not None:
+                spec['bounds'] = [list(b) for b in boxes]
+            if g == 'bd':
+                spec['successive'] = [bool((j + n) % 2) for j in range(n)]
+            if g == 'nd':
+                spec['successive'] = [False] * n            # (with successive jumps the family has no loop)
+            nloops = 1 if g == 'be' else n
+            for li, L in enumerate(lens_here):
+                sp = dict(spec)
+                k = rng.randrange(4)
+                if not base:
+                    sp['adapt'] = a_spec
+                elif g == 'bn':
+                    sp['std'] = [(100.0, 1.0, 1e3, 1e-6)[(li + j) % 4] * (b[1] - b[0]) for j, b in enumerate(boxes)]
+                elif g in ('bd', 'nd'):
+                    sp['std'] = [(1.0, 4.0, 1024.0, 2.0 ** -40)[(li + j) % 4] for j in range(n)]
+                    if g == 'bd':
+                        sp['_ctor_bounds'] = sp['bounds']
+                elif g == 'ang':
+                    sp['std'] = [(1.0, 100.0, 1e6, 1e-3)[(li + j) % 4] * TWO_PI for j in range(n)]
+                elif g == 'be':
+                    sp['cov'] = BE_STREAK_COVS[n][li % 2]
+                if g == 'bn':
+                    fromx = {p: (0.5 * (b[0] + b[1]), b[0], b[1], b[0] + 0.3 * (b[1] - b[0]))[(k + j) % 4]
+                             for j, (p, b) in enumerate(zip(names, boxes))}
+                elif g == 'bd':
+                    ib = [(int(math.floor(b[0])), int(math.ceil(b[1]))) for b in boxes]
+                    fromx = {p: (b[0], b[1], (b[0] + b[1]) // 2, min(b[0] + 1, b[1]))[(k + j) % 4]
+                             for j, (p, b) in enumerate(zip(names, ib))}
+                elif g == 'nd':
+                    fromx = {p: (0, -3, 7, 1000000)[(k + j) % 4] for j, p in enumerate(names)}
+                elif g == 'ang':
+                    fromx = {p: (0.0, TWO_PI, PI, 1.0)[(k + j) % 4] for j, p in enumerate(names)}
+                else:
+                    fromx = {p: b[0] + (0.5, 0.3, 0.7, 0.9)[(k + j) % 4] * (b[1] - b[0]) for j, (p, b) in enumerate(zip(names, boxes))}
+                lens = [2 + (li + j) % 3 for j in range(nloops)]       # short streaks at the other positions
+                lens[pos] = L
+                yield streak_case(sp, fromx, lens, u=[0.9, (0.0, 0.5, 1 - 2.0 ** -53)[li % 3], 0.5, 0.5, 0.5] if g == 'be' else (),
+                                  model=streak_to_model(g, base, pi, L, full))
+
+
+BE_STREAK_COVS = {
+    2: [[[1.0, 1.5], [1.5, 12.5]], [[400.0, -30.0], [-30.0, 90.0]]],
+    3: [[[1.0, 0.2, -0.1], [0.2, 4.0, 0.3], [-0.1, 0.3, 0.25]], [[90.0, 10.0, 0.0], [10.0, 300.0, -5.0], [0.0, -5.0, 40.0]]],
+}
+
+
+# ---- configuration by name (dict order, extra keys, setting again)
+
+NAMED_BOXES = [[(0.0, 1.0), (5.0, 6.5), (-3.0, -2.0)],        # disjoint: a mis-pairing refuses / leaves the box
+               [(0.0, 1.0), (-2.0, 3.0), (0.25, 0.5)]]        # nested: a mis-pairing proposes outside the narrow box
+NAMED_INT_BOXES = [[(0, 3), (10, 12), (-7, -5)], [(0, 9), (2, 4), (-3, 12)]]
+NAMED_FLOAT_INT_BOXES = [(-0.5, 4.2), (9.5, 12.0), (-7.3, -4.9)]
+
+
+def cfg_layouts(rng, reset_ok=True, few=False):
+    """The layouts of one configuration (`few`: four of them -- an adaptive variant needs an
+    adaptation run on a real chain per layout)."""
+    for li, lay in enumerate(CFG_LAYOUTS):
+        if lay['reset'] and not reset_ok:
+            continue
+        if few and li not in (0, 2, 4, 5):
+            continue
+        yield dict(lay, seed=rng.randrange(1, 10 ** 6))
+
+
+def named_case(spec, cfg, fromx, z=(), u=(), tail='land'):
+    c = case(dict(spec, cfg=cfg), fromx, z=z, u=u, tail=tail)
+    c['model'] = True
+    return c
+
+
+def gen_named(rng, tier, full):
+    a_spec = adapt_specs(rng, 'quick')[2]
+    if not full:
+        a_spec = dict(a_spec, steps=8, window=20)
+    zsets = [[0.3, -1.0, 2.0], [-0.2, 0.7, -3.0], [1.3, -0.05, 0.4], [-2.2, 1.1, 0.01]]
+    # bounded normal and its adaptive variants
+    for n in (2, 3):
+        names = param_names(n)
+        for bi, boxes3 in enumerate(NAMED_BOXES):
+            boxes = boxes3[:n]
+            for fam in GROUPS['bn']:
+                if fam != 'bounded_normal' and not full and bi != n % 2:
+                    continue
+                for s in (((0.1, 1.0, 100.0) if full else (1.0, 100.0)) if fam == 'bounded_normal' else (None,)):
+                    spec = dict(family=fam, n=n, bounds=[list(b) for b in boxes])
+                    if s is None:
+                        spec['adapt'] = a_spec
+                    else:
+                        spec['std'] = [s * (b[1] - b[0]) * (1 + j) for j, b in enumerate(boxes)]
+                    for cfg in cfg_layouts(rng, few=(s is None and not full)):
+                        for k in range(3 if full else 2):
+                            fromx = {p: (b[0], b[1], 0.5 * (b[0] + b[1]), rng.uniform(b[0], b[1]))[(k + j + (k == 2)) % 4]
+                                     for j, (p, b) in enumerate(zip(names, boxes))}
+                            for zs in (zsets if full else zsets[k:k + 2]):
+                                yield named_case(spec, cfg, fromx, z=zs[:n])
+                            if s is not None and (full or s == 1.0 or k == 0):      # images on / next to the bounds of each parameter
+                                for i in range(n):
+                                    lead = [(0.5 * (boxes[j][0] + boxes[j][1]) - fromx[names[j]]) / spec['std'][j] for j in range(i)]
+                                    for zp in z_probes_box(fromx[names[i]], spec['std'][i], *boxes[i])[:: (1 if full else 2)]:
+                                        yield named_case(spec, cfg, fromx, z=lead + [zp])
+    # bounded and unbounded discrete: boundaries, successive, prior widths
+    dsets = [[0.3, -0.4, 0.5], [1.5, -2.5, 0.0], [-0.49, 0.51, -1.0], [2.5, 0.2, -0.3]]
+    for fam in GROUPS['bd'] + GROUPS['nd']:
+        bounded = fam in GROUPS['bd']
+        adaptive = fam not in ('bounded_discrete', 'discrete')
+        for n in (2, 3):
+            names = param_names(n)
+            for si, succ in enumerate([(False, True), (True, False)] if n == 2 else [(False, True, False), (True, True, False)]):
+                for bi, boxes3 in enumerate((NAMED_INT_BOXES + [NAMED_FLOAT_INT_BOXES]) if bounded else [None]):
+                    if adaptive and not full and (bi != 0 or si != n % 2):
+                        continue
+                    spec = dict(family=fam, n=n, successive=list(succ))
+                    integer_bounds = True
+                    if bounded:
+                        boxes = boxes3[:n]
+                        spec['bounds'] = [list(b) for b in boxes]
+                        spec['_ctor_bounds'] = [list(b) for b in boxes]
+                        integer_bounds = all(float(v).is_integer() for b in boxes for v in b)
+                        ib = [(int(math.floor(b[0])), int(math.ceil(b[1]))) for b in boxes]
+                    if adaptive:
+                        spec['adapt'] = a_spec
+                        std = [1.0] * n
+                    else:
+                        std = [(0.25, 4.0, 1.0)[(j + n) % 3] for j in range(n)]
+                        spec['std'] = std
+                    for cfg in cfg_layouts(rng, reset_ok=integer_bounds, few=(adaptive and not full)):
+                        for k in range(3 if not adaptive else 2):
+                            if bounded:
+                                fromx = {p: (b[0], b[1], (b[0] + b[1]) // 2)[(k + j) % 3] for j, (p, b) in enumerate(zip(names, ib))}
+                            else:
+                                fromx = {p: (0, -5, 11)[(k + j) % 3] for j, p in enumerate(names)}
+                            for ds in (dsets if full else dsets[k % 2::2]):
+                                yield named_case(spec, cfg, fromx, z=[d / sd for d, sd in zip(ds, std)])
+    # bounded eigenvector
+    for fam in GROUPS['be']:
+        for n in ((2, 3) if (fam == 'bounded_eigenvector' or full) else (2,)):
+            names = param_names(n)
+            boxes = NAMED_BOXES[0][:n]
+            spec = dict(family=fam, n=n, bounds=[list(b) for b in boxes])
+            if fam == 'bounded_eigenvector':
+                spec['cov'] = _cov(n, 1.0, boxes, rng)
+            else:
+                spec['adapt'] = a_spec
+            mids = {p: 0.5 * (b[0] + b[1]) for p, b in zip(names, boxes)}
+            starts = [dict(mids), {p: rng.uniform(b[0], b[1]) for p, b in zip(names, boxes)}]
+            for i, p in enumerate(names):
+                d = dict(mids)
+                d[p] = boxes[i][i % 2]
+                starts.append(d)
+            for cfg in cfg_layouts(rng, few=(fam != 'bounded_eigenvector' and not full)):
+                for fromx in starts:
+                    for ush, uc in ((0.9, 0.0), (0.9, 1 - 2.0 ** -53), (0.1, 0.5)):
+                        for zp in ((0.3, -1.0, 8.3, -0.01) if full else (0.3, -1.0)):
+                            yield named_case(spec, cfg, fromx, z=[zp], u=[ush, 0.3, 0.7, uc, 0.5, 0.5])
+    # births
+    usets = [[0.0, 1 - 2.0 ** -53, 0.5], [0.25, 0.75, 0.1], [2.0 ** -53, 0.999, 1e-6], [0.9, 0.0, 0.3]]
+    for n in (2, 3):
+        for boxes3 in NAMED_BOXES + [[(-1e6, 1e-3), (0.1, 0.30000000000000004), (1e6, 1e6 + 1.0)]]:
+            spec = dict(family='uniform_birth', n=n, bounds=[list(b) for b in boxes3[:n]])
+            for cfg in cfg_layouts(rng):
+                for us in usets:
+                    yield named_case(spec, cfg, {}, u=us[:n], tail=None)
+        for fam, means, stds in (('normal_birth', [0.0, 5.0, -3.0], [1.0, 0.1, 10.0]),
+                                 ('normal_birth', [1e6, 1e-6, -1.0], [1e-3, 1.0, 1e12]),
+                                 ('log_normal_birth', [1.0, 5.0, 0.5], [1.0, 0.5, 2.0]),
+                                 ('log_normal_birth', [50.0, 1e-6, 1e6], [1e6, 1.0, 1e-3])):
+            spec = dict(family=fam, n=n, mean=means[:n], std=stds[:n])
+            for cfg in cfg_layouts(rng):
+                for zs in zsets + [[8.3, -8.3, 0.0]]:
+                    yield named_case(spec, cfg, {}, z=zs[:n], tail=None)
+
+
+def random_named_cases(rng, n):
+    """Randomised cases (as `random_cases`) whose name-keyed configuration is laid out at random."""
+    out = []
+    for c in random_cases(rng, n):
+        spec = c['spec']
+        g = GROUP_OF[spec['family']]
+        if g not in ('bn', 'bd', 'nd', 'be', 'birth') or spec['n'] < 2:
+            continue
+        lays = [lay for lay in CFG_LAYOUTS if cfg_is_variant(lay)]
+        if g == 'bd' and not all(float(v).is_integer() for b in spec['bounds'] for v in b):
+            lays = [lay for lay in lays if not lay['reset']]
+        c['spec'] = dict(spec, cfg=dict(rng.choice(lays), seed=rng.randrange(1, 10 ** 6)))
+        c['model'] = True
+        out.append(c)
+    return out
+
+
 GENERATORS = {'bn': gen_bn, 'discrete': gen_discrete, 'ang': gen_ang, 'be': gen_be, 'sa': gen_sa,
               'birth': gen_birth}
+# directed generators added later; they run after the randomised cases so that the cases above
+# stay the same for a given seed
+LATE_GENERATORS = {'streaks': gen_streaks, 'named': gen_named}
 
 
 def random_cases(rng, n):
@@ -1142,48 +1908,216 @@ def describe(c):
     return d
 
 
+def is_streak(c):
+    t = c.get('tail')
+    return isinstance(t, (list, tuple)) and bool(t) and t[0] == 'streak'
+
+
+def note_streak(stats, c, used_z, walk):
+    """Measured numbers of one rejection-streak case (evidence coverage)."""
+    s = stats.setdefault('_streaks', {'cases': 0, 'per_family': {}, 'rejection_streak_lengths_measured': {},
+                                      'longest_streak_measured': 0, 'normal_draws_consumed': 0,
+                                      'judged_by_walk': 0, 'walk_abstained': 0, 'compared_with_model': 0,
+                                      'loops_with_streak_per_position': {}})
+    fam = c['spec']['family']
+    s['cases'] += 1
+    s['per_family'][fam] = s['per_family'].get(fam, 0) + 1
+    s['normal_draws_consumed'] += used_z
+    if walk is None:
+        s['walk_abstained'] += 1
+        return
+    s['judged_by_walk'] += 1
+    for i, k in enumerate(walk['streaks']):
+        if k > 0:
+            h = s['rejection_streak_lengths_measured']
+            h[str(k)] = h.get(str(k), 0) + 1
+            s['longest_streak_measured'] = max(s['longest_streak_measured'], k)
+            pp = s['loops_with_streak_per_position']
+            pp[str(i)] = pp.get(str(i), 0) + 1
+
+
+def _named_stats():
+    return {'variant_cases': 0, 'reference_layout_cases': 0, 'per_family': {}, 'per_layout': {},
+            'pairs_compared': 0, 'pairs_identical': 0, 'variant_not_accepted': {}, 'compared_with_model': 0}
+
+
+def _same_value(a, b):
+    if a is None or b is None:
+        return a is b
+    if _is_integer_value(a) != _is_integer_value(b):
+        return False
+    if _isnan(a) or _isnan(b):
+        return _isnan(a) and _isnan(b)
+    return a == b
+
+
+def judge_named(c, prop, res, stats):
+    """Metamorphic check of a name-keyed configuration variant on the real code: the same call
+    (start point, scripted draws, tail, budget) on the object configured from dicts in parameter
+    order without extra keys must give exactly the same outcome."""
+    spec = c['spec']
+    cfg = spec['cfg']
+    fam = spec['family']
+    g = GROUP_OF[fam]
+    nm = stats.setdefault('_named', _named_stats())
+    nm['variant_cases'] += 1
+    nm['per_family'][fam] = nm['per_family'].get(fam, 0) + 1
+    lab = cfg_label(cfg)
+    nm['per_layout'][lab] = nm['per_layout'].get(lab, 0) + 1
+    base = dict(c)
+    base['spec'] = dict(spec, cfg=cfg_base_of(cfg))
+    bprop, bres = run_case(base)
+    if bprop is None:
+        return []            # the reference itself cannot be built: nothing to compare with
+    nm['pairs_compared'] += 1
+    names = list(prop.parameters)
+    same = bres['kind'] == res['kind'] and bres['script'].used('z') == res['script'].used('z') \
+        and bres['script'].used('u') == res['script'].used('u')
+    if same and res['kind'] == 'ok':
+        same = set(res['out']) == set(bres['out']) and all(_same_value(res['out'].get(p), bres['out'].get(p)) for p in names)
+    if same:
+        nm['pairs_identical'] += 1
+        return []
+    show = lambda r: (repr(r['out']) if r['kind'] == 'ok' else r['kind'] + (': ' + r['exc'] if r.get('exc') else ''))   # noqa: E731
+    return [('%s-config-not-by-name' % g,
+             '%s configured from dicts laid out as %s (keys of each dict as given: %r) answers the call from %r '
+             'with %s after %d base draws; the same configuration given in parameter order answers %s after %d' % (
+                 fam, lab, _layout_keys(spec), c['fromx'], show(res), res['script'].used(), show(bres), bres['script'].used()))]
+
+
+def _layout_keys(spec):
+    names = param_names(spec['n'])
+    return list(laid_out(names, names, spec['cfg'], ['-', '-']))
+
+
+def evaluate(c, want_model, stats=None):
+    """One case on the real code, judged; everything the suite keeps of it, as plain data (the
+    rejection-streak cases are evaluated in worker processes).  `stats` is only needed for the
+    name-keyed variants (their reference run is made here)."""
+    prop, res = run_case(c)
+    if prop is None:
+        return {'built': False, 'reason': res}
+    g = GROUP_OF[c['spec']['family']]
+    rec = {'built': True, 'kind': res['kind'], 'used': res['script'].used(), 'used_z': res['script'].used('z'),
+           'npar': len(prop.parameters), 'walk': None, 'pr': None,
+           'observed': repr(res['out']) if res['kind'] == 'ok' else res['kind'],
+           'scales': scale_of(prop) if g != 'birth' else None}
+    flagged = judge(c['spec'], prop, c['fromx'], res)
+    if is_streak(c):
+        fl, rec['walk'] = judge_streak(c['spec'], prop, c['fromx'], res)
+        flagged = flagged + fl
+    if cfg_is_variant(c['spec'].get('cfg')):
+        flagged = flagged + judge_named(c, prop, res, stats if stats is not None else {})
+    rec['flagged'] = flagged
+    if want_model:
+        rec['pr'] = protocol(c['spec'], prop, c['fromx'], res)
+    return rec
+
+
+def _streak_worker(job):
+    c, want_model = job
+    import warnings
+    warnings.filterwarnings('ignore')
+    return evaluate(c, want_model)
+
+
+class StreakWorkers:
+    """Evaluates the rejection-streak cases (a few million scripted draws in all) in worker
+    processes while this process goes through the other cases.  The records do not depend on
+    the number of workers; without worker processes the cases are evaluated in this process."""
+
+    def __init__(self, cases, wanted, procs=None):
+        self.pool = self.async_result = None
+        idx = [ci for ci, c in enumerate(cases) if is_streak(c)]
+        if procs is None:
+            procs = min(8, os.cpu_count() or 1)
+        if len(idx) < 4 or procs < 2 or os.environ.get('C12_SERIAL'):
+            self.order = []
+            return
+        # longest first (the eigenvector loop costs ~20x more per draw in the real code)
+        self.order = sorted(idx, key=lambda ci: -sum(cases[ci]['tail'][1]) * (20 if GROUP_OF[cases[ci]['spec']['family']] == 'be' else 1))
+        jobs = [(cases[ci], ci in wanted) for ci in self.order]
+        try:
+            self.pool = multiprocessing.get_context('fork').Pool(procs)
+            self.async_result = self.pool.map_async(_streak_worker, jobs, chunksize=1)
+        except (OSError, multiprocessing.ProcessError):
+            self.close()
+            self.order = []
+
+    def taken(self):
+        return set(self.order)
+
+    def close(self):
+        if self.pool is not None:
+            self.pool.terminate()
+            self.pool.join()
+            self.pool = None
+
+    def records(self, timeout=3600):
+        if not self.order:
+            return {}
+        try:
+            recs = self.async_result.get(timeout)
+        finally:
+            self.close()
+        return dict(zip(self.order, recs))
+
+
 def run_suite(cases, do_model=True, stats=None, model_every=1):
     """Run `cases` on the real code; judge every one of them; send every
-    `model_every`-th through the Lean model as well.
+    `model_every`-th (and every case marked `model`) through the Lean model as well.
 
     Returns (findings, divergences, stats).  findings: (key, text, payload)."""
     stats = stats if stats is not None else {}
     findings = {}
     reqs = []
     distinct = set()
+    wanted = {ci for ci, c in enumerate(cases) if do_model and (ci % model_every == 0 or c.get('model'))}
+    workers = StreakWorkers(cases, wanted)
+    try:
+        elsewhere = workers.taken()
+        recs = {ci: evaluate(c, ci in wanted, stats) for ci, c in enumerate(cases) if ci not in elsewhere}
+        recs.update(workers.records())
+    finally:
+        workers.close()
     for ci, c in enumerate(cases):
-        prop, res = run_case(c)
+        rec = recs.pop(ci)
         fam = c['spec']['family']
         g = GROUP_OF[fam]
         st = stats.setdefault(g, {'calls': 0, 'ok': 0, 'refuse': 0, 'starved': 0, 'budget': 0, 'error': 0,
                                   'skipped': 0, 'rejections': 0, 'families': {}})
-        if prop is None:
+        if not rec['built']:
+            res = rec['reason']
             st['skipped'] += 1
             stats.setdefault('_skipped_reasons', {}).setdefault(res[:120], 0)
             stats['_skipped_reasons'][res[:120]] += 1
+            if c['spec'].get('cfg') is not None:       # a layout the code does not accept is not a case
+                nm = stats.setdefault('_named', _named_stats())
+                k = '%s %s' % (fam, cfg_label(c['spec']['cfg']))
+                nm['variant_not_accepted'][k] = nm['variant_not_accepted'].get(k, 0) + 1
             continue
         st['calls'] += 1
-        st[res['kind']] += 1
+        st[rec['kind']] += 1
         st['families'][fam] = st['families'].get(fam, 0) + 1
-        used = res['script'].used()
-        if res['kind'] == 'ok' and g not in ('sa', 'birth', 'nd'):
-            st['rejections'] += max(0, res['script'].used('z') - len(prop.parameters))
-        if used > 0 or res['kind'] == 'refuse':
+        if rec['kind'] == 'ok' and g not in ('sa', 'birth', 'nd'):
+            st['rejections'] += max(0, rec['used_z'] - rec['npar'])
+        if rec['used'] > 0 or rec['kind'] == 'refuse':
             distinct.add(json.dumps(describe(c), sort_keys=True, default=str))
-        flagged = judge(c['spec'], prop, c['fromx'], res)
+        if is_streak(c):
+            note_streak(stats, c, rec['used_z'], rec['walk'])
+        if c['spec'].get('cfg') is not None and not cfg_is_variant(c['spec']['cfg']):
+            stats.setdefault('_named', _named_stats())['reference_layout_cases'] += 1
+        flagged = rec['flagged']
         c['_flagged'] = [k for k, _ in flagged]
         for key, text in flagged:
             if key not in findings:
-                findings[key] = (key, text, {'suite': 'search', 'case': describe(c),
-                                             'observed': repr(res['out']) if res['kind'] == 'ok' else res['kind'],
-                                             'scales': scale_of(prop) if g != 'birth' else None,
+                findings[key] = (key, text, {'suite': 'search', 'case': describe(c), 'observed': rec['observed'],
+                                             'scales': rec['scales'],
                                              'how_to_replay': './check C12 --replay <this file>'})
             stats.setdefault('_finding_counts', {}).setdefault(key, 0)
             stats['_finding_counts'][key] += 1
-        if do_model and ci % model_every == 0:
-            pr = protocol(c['spec'], prop, c['fromx'], res)
-            if pr is not None:
-                reqs.append((c, pr))
+        if rec['pr'] is not None:
+            reqs.append((c, rec['pr']))
     divs = []
     if do_model and reqs:
         lines = [pr[0] for _, pr in reqs if pr[0] != 'sa-sequence']
@@ -1197,6 +2131,11 @@ def run_suite(cases, do_model=True, stats=None, model_every=1):
                 ans = next(answers, '<model output ended>')
                 ok, why = agree(mode, ans, real, c['spec'])
             ncmp += 1
+            if is_streak(c):
+                stats.setdefault('_streaks', {}).setdefault('compared_with_model', 0)
+                stats['_streaks']['compared_with_model'] += 1
+            if c['spec'].get('cfg') is not None:
+                stats.setdefault('_named', _named_stats())['compared_with_model'] += 1
             mk = _parse_answer(ans)['kind']
             stats.setdefault('_model_answers', {}).setdefault(mk, 0)
             stats['_model_answers'][mk] += 1
@@ -1214,6 +2153,9 @@ def all_cases(seed, tier, full):
     for name, gen in GENERATORS.items():
         cases.extend(gen(rng, tier, full))
     cases.extend(random_cases(rng, 400 if not full else 30000))
+    for name, gen in LATE_GENERATORS.items():
+        cases.extend(gen(rng, tier, full))
+    cases.extend(random_named_cases(rng, 400 if not full else 6000))
     return cases
 
 
@@ -1308,6 +2250,14 @@ def replay_case(c):
     print('real   :', res['kind'], res['out'] if res['kind'] == 'ok' else res['exc'],
           'base draws consumed:', res['script'].used())
     f = judge(c['spec'], prop, c['fromx'], res)
+    if is_streak(c):
+        fl, walk = judge_streak(c['spec'], prop, c['fromx'], res)
+        f = f + fl
+        print('streak : rejections per loop, measured on the log of the real call:', walk['streaks'] if walk else None,
+              '; normal draws consumed:', res['script'].used('z'))
+    if cfg_is_variant(c['spec'].get('cfg')):
+        print('layout : %s; keys of each dict as given: %r' % (cfg_label(c['spec']['cfg']), _layout_keys(c['spec'])))
+        f = f + judge_named(c, prop, res, {})
     for key, text in f:
         print('FAILS  : [%s] %s' % (key, text))
     bad = bool(f)
